@@ -374,6 +374,10 @@ func (o *moneyOracle) c05(e *Env, si *StepInfo) {
 				bad = "content id differs"
 			case cm.Status != pm.Status:
 				bad = fmt.Sprintf("status %d, was %d", cm.Status, pm.Status)
+			case cm.CreatedAt+cm.Duration < pm.CreatedAt+pm.Duration:
+				// (the recomputation from the stored shards may move the end of life up to the end of the
+				// last shard; it must never cut the committed version's lifetime)
+				bad = fmt.Sprintf("end of life cut to %d, was %d", cm.CreatedAt+cm.Duration, pm.CreatedAt+pm.Duration)
 			}
 			if bad != "" {
 				o.once(e, "C05", "C05.meta", lab, "metadata-not-rolled-back", po.DataId, fmt.Sprintf("update order %d of data %s ended before completion; model not back at its committed version: %s", id, po.DataId, bad))
@@ -595,6 +599,22 @@ func (o *moneyOracle) c07(e *Env, si *StepInfo) {
 
 // ---- C08 ----------------------------------------------------------------------------
 
+// rewardAge: number of halvings passed when the cumulative counter is c — the largest k with
+// c >= cap*(1 - 2^-k), computed exactly in integers.
+func rewardAge(c sdk.Int) uint {
+	capI := sdk.NewInt(totalRewardCap)
+	k := uint(0)
+	for k < 62 {
+		// c * 2^(k+1) >= cap * (2^(k+1) - 1) ?
+		p := sdk.NewInt(1).MulRaw(1 << (k + 1))
+		if c.Mul(p).LT(capI.Mul(p.SubRaw(1))) {
+			break
+		}
+		k++
+	}
+	return k
+}
+
 func (o *moneyOracle) c08(e *Env, si *StepInfo) {
 	t := e.T
 	prev, cur := si.Prev, si.Cur
@@ -614,8 +634,12 @@ func (o *moneyOracle) c08(e *Env, si *StepInfo) {
 		if !prev.Node.HasPool || prev.Node.Pool.TotalStorage <= 0 {
 			o.once(e, "C08", "C08.mint", lab, "mint-without-capacity", "pool", fmt.Sprintf("%s minted while no capacity is pledged", amt))
 		}
-		if amt.GT(sdk.NewInt(e.W.Cfg.Node.BlockReward)) {
-			o.once(e, "C08", "C08.mint", lab, "mint-above-block-reward", "pool", fmt.Sprintf("%s minted in one block, configured block reward is %d", amt, e.W.Cfg.Node.BlockReward))
+		age := rewardAge(prev.Node.Pool.TotalReward.Amount)
+		if age > 0 {
+			e.probe("reward_minted_after_a_halving")
+		}
+		if allowed := sdk.NewInt(e.W.Cfg.Node.BlockReward >> age); amt.GT(allowed) {
+			o.once(e, "C08", "C08.mint", lab, "mint-above-block-reward", "pool", fmt.Sprintf("%s minted in one block; configured block reward %d, halving age %d (counter %s) allows %s", amt, e.W.Cfg.Node.BlockReward, age, prev.Node.Pool.TotalReward.Amount, allowed))
 		}
 		// independent pro-rata accumulator: capacity at the start of the block
 		tot := prev.Node.Pool.TotalStorage
@@ -630,8 +654,8 @@ func (o *moneyOracle) c08(e *Env, si *StepInfo) {
 		}
 	}
 	if si.Kind == "begin" && cur.Node.HasPool {
-		if !cur.Node.Pool.TotalReward.Amount.Equal(t.MintedNode) {
-			o.once(e, "C08", "C08.counter", lab, "total-reward-vs-minted", "pool", fmt.Sprintf("cumulative reward counter %s but coins minted by the node module total %s", cur.Node.Pool.TotalReward.Amount, t.MintedNode))
+		if start := e.W.Cfg.Node.RewardStart; !cur.Node.Pool.TotalReward.Amount.Equal(t.MintedNode.AddRaw(start)) {
+			o.once(e, "C08", "C08.counter", lab, "total-reward-vs-minted", "pool", fmt.Sprintf("cumulative reward counter %s but coins minted by the node module total %s (counter at genesis %d)", cur.Node.Pool.TotalReward.Amount, t.MintedNode, start))
 		}
 	}
 	// claim pays the claimer only, exactly the whole-coin part less the recorded debt decrease
